@@ -20,9 +20,12 @@
 (* not a path, because repair renames a new file over the path while an    *)
 (* already opened writer keeps its descriptor.                             *)
 (*                                                                         *)
-(* `Quirks` names the places where the code is known to differ from what   *)
-(* the property needs; each quirk can be switched off to obtain the        *)
-(* behaviour of the proposed repair of the code (see NOTES.md):            *)
+(* `Quirks` names four places where the code *used to* differ from what    *)
+(* the property needs.  All four have been repaired in surrealkv (fix:     *)
+(* commits, see NOTES.md 5), so the model of the code as it is has         *)
+(* Quirks = {}; switching a quirk on gives the pinned old behaviour, used   *)
+(* by the "teeth" run of the check (its counterexamples must exist in the  *)
+(* model and must not reproduce on the code):                              *)
 (*   MetaBeforeCrc   Reader::next acts on the types Empty(0) and           *)
 (*                   SetCompressionType(9) before any checksum is checked  *)
 (*   TornTailAppend  create_writer continues at size % B whatever the tail *)
